@@ -9,7 +9,17 @@ import (
 
 func init() {
 	register(&Engine{Prop: "C03", Doc: "flow routing", Run: runC03, Replay: func(c *Cfg, s json.RawMessage) { replayScenario(c, "C03", s) }})
-	register(&Engine{Prop: "C04", Doc: "error transparency, fail-stop", Run: runC04, Replay: func(c *Cfg, s json.RawMessage) { replayScenario(c, "C04", s) }})
+	register(&Engine{Prop: "C04", Doc: "error transparency, fail-stop", Run: runC04, Replay: func(c *Cfg, s json.RawMessage) {
+		var pc PanicCase
+		if json.Unmarshal(s, &pc) == nil && pc.Family == "panicking-callback-inside-a-flow" {
+			for _, f := range runPanicCase(&pc) {
+				fmt.Printf(" * finding %s: %s\n", f.key, f.detail)
+				c.Rep.Violate("C04", "C04:"+f.key, f.detail, pc)
+			}
+			return
+		}
+		replayScenario(c, "C04", s)
+	}})
 	register(&Engine{Prop: "C10", Doc: "flow as node", Run: runC10, Replay: replayC10})
 }
 
@@ -306,6 +316,47 @@ func runC04(c *Cfg) {
 		judgeFor(c, "C04", "very-long-run", ll[i])
 		r.Count("very_long_run.cases", 1)
 		r.Nontrivial("ll:" + scenSig(ll[i]))
+	})
+	// a callback that panics has not succeeded: the panic escapes or the run fails — never a success, never a further node
+	for _, ph := range []string{"prep", "exec", "post"} {
+		for _, vk := range []string{"string", "int", "struct", "ptr", "bool", "error", "stringer", "float", "slice"} {
+			for _, sh := range []string{"flat", "nested"} {
+				pc := &PanicCase{Family: "panicking-callback-inside-a-flow", Phase: ph, Val: vk, Shape: sh}
+				for _, f := range runPanicCase(pc) {
+					r.Violate("C04", "C04:"+f.key, f.detail, pc)
+				}
+				r.Eval()
+				r.Count("panicking_callback.cases", 1)
+				r.Nontrivial("pc:" + ph + vk + sh)
+			}
+		}
+	}
+	// the context is cancelled inside the very last callback of a run that succeeds: every phase on the path has
+	// succeeded, nothing was cut short, the run reports success
+	nl := c.Pick(1500, 100000)
+	parallel(c, nl, func(i int) {
+		rg := c.Rng("c04last", i)
+		base := scen.GenFlowScenario(rg, scen.GenOpts{MaxNodes: 8, MaxActions: 4, MaxDepth: 3, MaxVisits: 3, Batch: i%3 == 0})
+		base.Runs, base.Rewire = 1, nil
+		ref := scen.NewExec(base).RunOnce()
+		r.Eval()
+		if !ref.ErrNil || ref.Runaway || ref.Panic != "" || len(ref.Events) == 0 {
+			return
+		}
+		last := -1
+		for _, e := range ref.Events {
+			if e.Phase != "anomaly" {
+				last++
+			}
+		}
+		v := base.Clone()
+		v.Inject = scen.Inject{Kind: []string{"cancel", "deadline", "cancel-far", "cancel-cause"}[i%4], At: last}
+		for _, f := range lastCallbackCancelFindings(v) {
+			r.Violate("C04", "C04:"+f.key, f.detail, ScenCase{"cancel-inside-the-last-callback", v})
+		}
+		r.Eval()
+		r.Count("cancel_inside_last_callback.cases", 1)
+		r.Nontrivial("lc:" + scenSig(v))
 	})
 	frc := flowRetryCases()
 	parallel(c, len(frc), func(i int) {
